@@ -22,7 +22,7 @@ operations, the reader recovers (header, entries) = the acknowledged state: by i
 
 **`crash_atomic`** (the property itself, on the model of the crate): take any history of API calls and
 close-and-reopen steps of a freshly created core, any further call `op` (append_batch or clear of any
-arguments within the format limits, or a read), and **any number `k` of its storage operations** — the
+arguments within the format limits, make_read_only, or a read), and **any number `k` of its storage operations** — the
 stores as they are if the process dies after exactly those `k` operations (`LogSpec.crashDisk`).  Then
 `Hypercore::new` on these stores succeeds, and the recovered core satisfies the representation invariant
 `Rep` for the abstract log *before* `op` or for the abstract log *after* `op`: length, byte length, every
@@ -45,8 +45,10 @@ interrupted call or the log after it (`LogSpec.AbsX`).  Recovery re-establishes 
 stale entries of a flush that was cut between its header write and its truncate) — the repair `a6a0579` of
 a defect these crash histories exposed in the pinned tree.
 
-Not covered by these theorems: proof applications on a replica, `make_read_only`, and torn writes (C07).
-Those are validated by the run.
+`make_read_only` is one of the calls (`Op.makeReadOnly`): cut anywhere, it leaves the writable log (until its
+first header write reaches the store) or the same log read-only (`Crash.crash_ro`).
+
+Not covered by these theorems: proof applications on a replica (validated by the run); torn writes are C07.
 -/
 namespace HC.C02
 open HC.Rotation
